@@ -587,3 +587,260 @@ pub proof fn lemma_stbl_roundtrip(d: Seq<u8>, p: int, b: StblBox)
     if b.stco is Some { lemma_box_here(s, stbl_c(b, p, 7), stco_len(b.stco->Some_0), 0x7374636f); }
     if b.co64 is Some { lemma_box_here(s, stbl_c(b, p, 8), co64_len(b.co64->Some_0), 0x636f3634); }
 }
+
+// ---- minf
+pub open spec fn minf_norm(b: MinfBox) -> MinfBox { MinfBox { stbl: stbl_norm(b.stbl), ..b } }
+pub open spec fn minf_muxed(b: MinfBox) -> bool { minf_wire(b) && stbl_muxed(b.stbl) }
+pub open spec fn minf_c(b: MinfBox, p: int, k: int) -> int { p + minf_pre(b, k - 1).len() }
+#[verifier::rlimit(200)]
+pub proof fn lemma_minf_child_1(d: Seq<u8>, p: int, b: MinfBox)
+    requires 0 <= p, minf_muxed(b), b.vmhd is Some
+    ensures ({ let s = wr(d, p, minf_bytes(b)); let c = minf_c(b, p, 1); let x = b.vmhd->Some_0;
+               box_here(s, c, vmhd_len(x), 0x766d6864) && vmhd_at(s, c, x) })
+{
+    let all = minf_bytes(b); let s = wr(d, p, all); let c = minf_c(b, p, 1); let x = b.vmhd->Some_0;
+    lemma_minf_pre(b);
+    lemma_minf_pre_mono(b, 1, 4);
+    lemma_vmhd_starts(x);
+    assert(minf_pre(b, 1) == minf_pre(b, 0) + vmhd_bytes(x));
+    lemma_child_placed(d, p, all, minf_pre(b, 0), vmhd_bytes(x), vmhd_len(x), 0x766d6864);
+    lemma_vmhd_roundtrip(s, c, x);
+}
+#[verifier::rlimit(200)]
+pub proof fn lemma_minf_child_2(d: Seq<u8>, p: int, b: MinfBox)
+    requires 0 <= p, minf_muxed(b), b.smhd is Some
+    ensures ({ let s = wr(d, p, minf_bytes(b)); let c = minf_c(b, p, 2); let x = b.smhd->Some_0;
+               box_here(s, c, smhd_len(x), 0x736d6864) && smhd_at(s, c, x) })
+{
+    let all = minf_bytes(b); let s = wr(d, p, all); let c = minf_c(b, p, 2); let x = b.smhd->Some_0;
+    lemma_minf_pre(b);
+    lemma_minf_pre_mono(b, 2, 4);
+    lemma_smhd_starts(x);
+    assert(minf_pre(b, 2) == minf_pre(b, 1) + smhd_bytes(x));
+    lemma_child_placed(d, p, all, minf_pre(b, 1), smhd_bytes(x), smhd_len(x), 0x736d6864);
+    lemma_smhd_roundtrip(s, c, x);
+}
+#[verifier::rlimit(200)]
+pub proof fn lemma_minf_child_3(d: Seq<u8>, p: int, b: MinfBox)
+    requires 0 <= p, minf_muxed(b), true
+    ensures ({ let s = wr(d, p, minf_bytes(b)); let c = minf_c(b, p, 3); let x = b.dinf;
+               box_here(s, c, dinf_len(x), 0x64696e66) && true })
+{
+    let all = minf_bytes(b); let s = wr(d, p, all); let c = minf_c(b, p, 3); let x = b.dinf;
+    lemma_minf_pre(b);
+    lemma_minf_pre_mono(b, 3, 4);
+    lemma_dinf_starts(x);
+    assert(minf_pre(b, 3) == minf_pre(b, 2) + dinf_bytes(x));
+    lemma_child_placed(d, p, all, minf_pre(b, 2), dinf_bytes(x), dinf_len(x), 0x64696e66);
+    lemma_dinf_bytes_len(x);
+}
+#[verifier::rlimit(200)]
+pub proof fn lemma_minf_child_4(d: Seq<u8>, p: int, b: MinfBox)
+    requires 0 <= p, minf_muxed(b), true
+    ensures ({ let s = wr(d, p, minf_bytes(b)); let c = minf_c(b, p, 4); let x = b.stbl;
+               box_here(s, c, stbl_len(x), 0x7374626c) && stbl_at(s, c + 8, stbl_len(x) as u64, stbl_norm(x)) })
+{
+    let all = minf_bytes(b); let s = wr(d, p, all); let c = minf_c(b, p, 4); let x = b.stbl;
+    lemma_minf_pre(b);
+    lemma_minf_pre_mono(b, 4, 4);
+    lemma_stbl_starts(x);
+    assert(minf_pre(b, 4) == minf_pre(b, 3) + stbl_bytes(x));
+    lemma_child_placed(d, p, all, minf_pre(b, 3), stbl_bytes(x), stbl_len(x), 0x7374626c);
+    lemma_stbl_roundtrip(s, c, x);
+}
+pub open spec fn minf_boxes(s: Seq<u8>, p: int, b: MinfBox) -> bool {
+    (b.vmhd matches Some(x) ==> box_here(s, minf_c(b, p, 1), vmhd_len(x), 0x766d6864))
+    && (b.smhd matches Some(x) ==> box_here(s, minf_c(b, p, 2), smhd_len(x), 0x736d6864))
+    && box_here(s, minf_c(b, p, 3), dinf_len(b.dinf), 0x64696e66)
+    && box_here(s, minf_c(b, p, 4), stbl_len(b.stbl), 0x7374626c)
+}
+pub proof fn lemma_minf_walk(s: Seq<u8>, p: int, b: MinfBox, ty: BoxType)
+    requires 0 <= p, minf_muxed(b), minf_boxes(s, p, b)
+    ensures child_at(s, p + 8, minf_len(b) as u64, ty) == (if ty == BoxType::StblBox { Some(minf_c(b, p, 4)) } else { (if ty == BoxType::DinfBox { Some(minf_c(b, p, 3)) } else { (if ty == BoxType::SmhdBox && b.smhd is Some { Some(minf_c(b, p, 2)) } else { (if ty == BoxType::VmhdBox && b.vmhd is Some { Some(minf_c(b, p, 1)) } else { None::<int> }) }) }) })
+{
+    lemma_minf_pre(b);
+    let end = p + minf_len(b);
+    if b.vmhd is Some { lemma_box_here(s, minf_c(b, p, 1), vmhd_len(b.vmhd->Some_0), 0x766d6864); }
+    if b.smhd is Some { lemma_box_here(s, minf_c(b, p, 2), smhd_len(b.smhd->Some_0), 0x736d6864); }
+    lemma_box_here(s, minf_c(b, p, 3), dinf_len(b.dinf), 0x64696e66);
+    lemma_box_here(s, minf_c(b, p, 4), stbl_len(b.stbl), 0x7374626c);
+    lemma_chain8(s, ty, end, minf_c(b, p, 1), minf_c(b, p, 2), minf_c(b, p, 3), minf_c(b, p, 4), end, end, end, end, end, b.vmhd is Some, b.smhd is Some, true, true, false, false, false, false,
+        BoxType::VmhdBox, BoxType::SmhdBox, BoxType::DinfBox, BoxType::StblBox, BoxType::FreeBox, BoxType::FreeBox, BoxType::FreeBox, BoxType::FreeBox);
+}
+#[verifier::rlimit(300)]
+pub proof fn lemma_minf_roundtrip(d: Seq<u8>, p: int, b: MinfBox)
+    requires 0 <= p, minf_muxed(b)
+    ensures minf_at(wr(d, p, minf_bytes(b)), p + 8, minf_len(b) as u64, minf_norm(b)),
+            box_here(wr(d, p, minf_bytes(b)), p, minf_len(b), 0x6d696e66)
+{
+    let s = wr(d, p, minf_bytes(b));
+    lemma_minf_pre(b);
+    lemma_minf_starts(b);
+    lemma_hdr_of_bytes(d, p, minf_bytes(b), minf_len(b), 0x6d696e66);
+    if b.vmhd is Some { lemma_minf_child_1(d, p, b); }
+    if b.smhd is Some { lemma_minf_child_2(d, p, b); }
+    lemma_minf_child_3(d, p, b);
+    lemma_minf_child_4(d, p, b);
+    assert(minf_boxes(s, p, b));
+    lemma_minf_walk(s, p, b, BoxType::VmhdBox);
+    lemma_minf_walk(s, p, b, BoxType::SmhdBox);
+    lemma_minf_walk(s, p, b, BoxType::DinfBox);
+    lemma_minf_walk(s, p, b, BoxType::StblBox);
+    if b.vmhd is Some { lemma_box_here(s, minf_c(b, p, 1), vmhd_len(b.vmhd->Some_0), 0x766d6864); }
+    if b.smhd is Some { lemma_box_here(s, minf_c(b, p, 2), smhd_len(b.smhd->Some_0), 0x736d6864); }
+    lemma_box_here(s, minf_c(b, p, 3), dinf_len(b.dinf), 0x64696e66);
+    lemma_box_here(s, minf_c(b, p, 4), stbl_len(b.stbl), 0x7374626c);
+}
+
+// ---- mdia
+pub open spec fn mdia_norm(b: MdiaBox) -> MdiaBox { MdiaBox { minf: minf_norm(b.minf), ..b } }
+pub open spec fn mdia_muxed(b: MdiaBox) -> bool { mdia_wire(b) && minf_muxed(b.minf) && b.mdhd.language@ == lang_string_spec(lang_code_spec(b.mdhd.language@)) }
+pub open spec fn mdia_c(b: MdiaBox, p: int, k: int) -> int { p + mdia_pre(b, k - 1).len() }
+#[verifier::rlimit(200)]
+pub proof fn lemma_mdia_child_1(d: Seq<u8>, p: int, b: MdiaBox)
+    requires 0 <= p, mdia_muxed(b), true
+    ensures ({ let s = wr(d, p, mdia_bytes(b)); let c = mdia_c(b, p, 1); let x = b.mdhd;
+               box_here(s, c, mdhd_len(x), 0x6d646864) && mdhd_at(s, c, x) })
+{
+    let all = mdia_bytes(b); let s = wr(d, p, all); let c = mdia_c(b, p, 1); let x = b.mdhd;
+    lemma_mdia_pre(b);
+    lemma_mdia_pre_mono(b, 1, 3);
+    lemma_mdhd_starts(x);
+    assert(mdia_pre(b, 1) == mdia_pre(b, 0) + mdhd_bytes(x));
+    lemma_child_placed(d, p, all, mdia_pre(b, 0), mdhd_bytes(x), mdhd_len(x), 0x6d646864);
+    lemma_mdhd_roundtrip(s, c, x);
+}
+#[verifier::rlimit(200)]
+pub proof fn lemma_mdia_child_2(d: Seq<u8>, p: int, b: MdiaBox)
+    requires 0 <= p, mdia_muxed(b), true
+    ensures ({ let s = wr(d, p, mdia_bytes(b)); let c = mdia_c(b, p, 2); let x = b.hdlr;
+               box_here(s, c, hdlr_len(x), 0x68646c72) && hdlr_at(s, c + 8, x) })
+{
+    let all = mdia_bytes(b); let s = wr(d, p, all); let c = mdia_c(b, p, 2); let x = b.hdlr;
+    lemma_mdia_pre(b);
+    lemma_mdia_pre_mono(b, 2, 3);
+    lemma_hdlr_starts(x);
+    assert(mdia_pre(b, 2) == mdia_pre(b, 1) + hdlr_bytes(x));
+    lemma_child_placed(d, p, all, mdia_pre(b, 1), hdlr_bytes(x), hdlr_len(x), 0x68646c72);
+    lemma_hdlr_roundtrip(s, c, x); lemma_hdlr_bytes_len(x);
+}
+#[verifier::rlimit(200)]
+pub proof fn lemma_mdia_child_3(d: Seq<u8>, p: int, b: MdiaBox)
+    requires 0 <= p, mdia_muxed(b), true
+    ensures ({ let s = wr(d, p, mdia_bytes(b)); let c = mdia_c(b, p, 3); let x = b.minf;
+               box_here(s, c, minf_len(x), 0x6d696e66) && minf_at(s, c + 8, minf_len(x) as u64, minf_norm(x)) })
+{
+    let all = mdia_bytes(b); let s = wr(d, p, all); let c = mdia_c(b, p, 3); let x = b.minf;
+    lemma_mdia_pre(b);
+    lemma_mdia_pre_mono(b, 3, 3);
+    lemma_minf_starts(x);
+    assert(mdia_pre(b, 3) == mdia_pre(b, 2) + minf_bytes(x));
+    lemma_child_placed(d, p, all, mdia_pre(b, 2), minf_bytes(x), minf_len(x), 0x6d696e66);
+    lemma_minf_roundtrip(s, c, x);
+}
+pub open spec fn mdia_boxes(s: Seq<u8>, p: int, b: MdiaBox) -> bool {
+    box_here(s, mdia_c(b, p, 1), mdhd_len(b.mdhd), 0x6d646864)
+    && box_here(s, mdia_c(b, p, 2), hdlr_len(b.hdlr), 0x68646c72)
+    && box_here(s, mdia_c(b, p, 3), minf_len(b.minf), 0x6d696e66)
+}
+pub proof fn lemma_mdia_walk(s: Seq<u8>, p: int, b: MdiaBox, ty: BoxType)
+    requires 0 <= p, mdia_muxed(b), mdia_boxes(s, p, b)
+    ensures child_at(s, p + 8, mdia_len(b) as u64, ty) == (if ty == BoxType::MinfBox { Some(mdia_c(b, p, 3)) } else { (if ty == BoxType::HdlrBox { Some(mdia_c(b, p, 2)) } else { (if ty == BoxType::MdhdBox { Some(mdia_c(b, p, 1)) } else { None::<int> }) }) })
+{
+    lemma_mdia_pre(b);
+    let end = p + mdia_len(b);
+    lemma_box_here(s, mdia_c(b, p, 1), mdhd_len(b.mdhd), 0x6d646864);
+    lemma_box_here(s, mdia_c(b, p, 2), hdlr_len(b.hdlr), 0x68646c72);
+    lemma_box_here(s, mdia_c(b, p, 3), minf_len(b.minf), 0x6d696e66);
+    lemma_chain8(s, ty, end, mdia_c(b, p, 1), mdia_c(b, p, 2), mdia_c(b, p, 3), end, end, end, end, end, end, true, true, true, false, false, false, false, false,
+        BoxType::MdhdBox, BoxType::HdlrBox, BoxType::MinfBox, BoxType::FreeBox, BoxType::FreeBox, BoxType::FreeBox, BoxType::FreeBox, BoxType::FreeBox);
+}
+#[verifier::rlimit(300)]
+pub proof fn lemma_mdia_roundtrip(d: Seq<u8>, p: int, b: MdiaBox)
+    requires 0 <= p, mdia_muxed(b)
+    ensures mdia_at(wr(d, p, mdia_bytes(b)), p + 8, mdia_len(b) as u64, mdia_norm(b)),
+            box_here(wr(d, p, mdia_bytes(b)), p, mdia_len(b), 0x6d646961)
+{
+    let s = wr(d, p, mdia_bytes(b));
+    lemma_mdia_pre(b);
+    lemma_mdia_starts(b);
+    lemma_hdr_of_bytes(d, p, mdia_bytes(b), mdia_len(b), 0x6d646961);
+    lemma_mdia_child_1(d, p, b);
+    lemma_mdia_child_2(d, p, b);
+    lemma_mdia_child_3(d, p, b);
+    assert(mdia_boxes(s, p, b));
+    lemma_mdia_walk(s, p, b, BoxType::MdhdBox);
+    lemma_mdia_walk(s, p, b, BoxType::HdlrBox);
+    lemma_mdia_walk(s, p, b, BoxType::MinfBox);
+    lemma_box_here(s, mdia_c(b, p, 1), mdhd_len(b.mdhd), 0x6d646864);
+    lemma_box_here(s, mdia_c(b, p, 2), hdlr_len(b.hdlr), 0x68646c72);
+    lemma_box_here(s, mdia_c(b, p, 3), minf_len(b.minf), 0x6d696e66);
+}
+
+// ---- trak
+pub open spec fn trak_norm(b: TrakBox) -> TrakBox { TrakBox { mdia: mdia_norm(b.mdia), ..b } }
+pub open spec fn trak_muxed(b: TrakBox) -> bool { trak_wire(b) && mdia_muxed(b.mdia) }
+pub open spec fn trak_c(b: TrakBox, p: int, k: int) -> int { p + trak_pre(b, k - 1).len() }
+#[verifier::rlimit(200)]
+pub proof fn lemma_trak_child_1(d: Seq<u8>, p: int, b: TrakBox)
+    requires 0 <= p, trak_muxed(b), true
+    ensures ({ let s = wr(d, p, trak_bytes(b)); let c = trak_c(b, p, 1); let x = b.tkhd;
+               box_here(s, c, tkhd_len(x), 0x746b6864) && tkhd_at(s, c, x) })
+{
+    let all = trak_bytes(b); let s = wr(d, p, all); let c = trak_c(b, p, 1); let x = b.tkhd;
+    lemma_trak_pre(b);
+    lemma_trak_pre_mono(b, 1, 4);
+    lemma_tkhd_starts(x);
+    assert(trak_pre(b, 1) == trak_pre(b, 0) + tkhd_bytes(x));
+    lemma_child_placed(d, p, all, trak_pre(b, 0), tkhd_bytes(x), tkhd_len(x), 0x746b6864);
+    lemma_tkhd_roundtrip(s, c, x);
+}
+#[verifier::rlimit(200)]
+pub proof fn lemma_trak_child_4(d: Seq<u8>, p: int, b: TrakBox)
+    requires 0 <= p, trak_muxed(b), true
+    ensures ({ let s = wr(d, p, trak_bytes(b)); let c = trak_c(b, p, 4); let x = b.mdia;
+               box_here(s, c, mdia_len(x), 0x6d646961) && mdia_at(s, c + 8, mdia_len(x) as u64, mdia_norm(x)) })
+{
+    let all = trak_bytes(b); let s = wr(d, p, all); let c = trak_c(b, p, 4); let x = b.mdia;
+    lemma_trak_pre(b);
+    lemma_trak_pre_mono(b, 4, 4);
+    lemma_mdia_starts(x);
+    assert(trak_pre(b, 4) == trak_pre(b, 3) + mdia_bytes(x));
+    lemma_child_placed(d, p, all, trak_pre(b, 3), mdia_bytes(x), mdia_len(x), 0x6d646961);
+    lemma_mdia_roundtrip(s, c, x);
+}
+pub open spec fn trak_boxes(s: Seq<u8>, p: int, b: TrakBox) -> bool {
+    box_here(s, trak_c(b, p, 1), tkhd_len(b.tkhd), 0x746b6864)
+    && box_here(s, trak_c(b, p, 4), mdia_len(b.mdia), 0x6d646961)
+}
+pub proof fn lemma_trak_walk(s: Seq<u8>, p: int, b: TrakBox, ty: BoxType)
+    requires 0 <= p, trak_muxed(b), trak_boxes(s, p, b)
+    ensures child_at_m(s, p + 8, trak_len(b) as u64, ty) == (if ty == BoxType::MdiaBox { Some(trak_c(b, p, 4)) } else { (if ty == BoxType::TkhdBox { Some(trak_c(b, p, 1)) } else { None::<int> }) })
+{
+    lemma_trak_pre(b);
+    let end = p + trak_len(b);
+    lemma_box_here(s, trak_c(b, p, 1), tkhd_len(b.tkhd), 0x746b6864);
+    lemma_box_here(s, trak_c(b, p, 4), mdia_len(b.mdia), 0x6d646961);
+    lemma_chain8_m(s, ty, end, trak_c(b, p, 1), trak_c(b, p, 4), end, end, end, end, end, end, end, true, true, false, false, false, false, false, false,
+        BoxType::TkhdBox, BoxType::MdiaBox, BoxType::FreeBox, BoxType::FreeBox, BoxType::FreeBox, BoxType::FreeBox, BoxType::FreeBox, BoxType::FreeBox);
+}
+#[verifier::rlimit(300)]
+pub proof fn lemma_trak_roundtrip(d: Seq<u8>, p: int, b: TrakBox)
+    requires 0 <= p, trak_muxed(b)
+    ensures trak_at(wr(d, p, trak_bytes(b)), p + 8, trak_len(b) as u64, trak_norm(b)),
+            box_here(wr(d, p, trak_bytes(b)), p, trak_len(b), 0x7472616b)
+{
+    let s = wr(d, p, trak_bytes(b));
+    lemma_trak_pre(b);
+    lemma_trak_starts(b);
+    lemma_hdr_of_bytes(d, p, trak_bytes(b), trak_len(b), 0x7472616b);
+    lemma_trak_child_1(d, p, b);
+    lemma_trak_child_4(d, p, b);
+    assert(trak_boxes(s, p, b));
+    lemma_trak_walk(s, p, b, BoxType::TkhdBox);
+    lemma_trak_walk(s, p, b, BoxType::EdtsBox);
+    lemma_trak_walk(s, p, b, BoxType::MetaBox);
+    lemma_trak_walk(s, p, b, BoxType::MdiaBox);
+    lemma_box_here(s, trak_c(b, p, 1), tkhd_len(b.tkhd), 0x746b6864);
+    lemma_box_here(s, trak_c(b, p, 4), mdia_len(b.mdia), 0x6d646961);
+}
